@@ -10,6 +10,7 @@ import JubakoModel.Lemmas.FuncsSearch
 import JubakoModel.Lemmas.FuncsStats
 import JubakoModel.Lemmas.FuncsEntry
 import JubakoModel.Lemmas.FuncsParse
+import JubakoModel.Lemmas.FuncsOpen
 
 namespace Jubako
 
@@ -315,5 +316,15 @@ theorem c02_array_decoding_is_source_decoding (stores : Nat → Outcome (ValueSt
         (resolveArray stores r.1 r.2.1 fixedLen r.2.2).map' Val.arr).Same
       (decodeProp stores e ⟨off, nm, .array lenSize fixedLen dep dflt⟩) :=
   gen_arrayPropertyCreate stores e off nm lenSize fixedLen dep dflt hoff hl hd
+
+/-- **A directory pack is opened as the source opens it**: `directoryOpen` is `DirectoryPack::new` as translated
+    from `reader/directory_pack/mod.rs` on every run: pack header of kind "directory", directory-pack header,
+    then the three pointer tables (value stores, entry stores, indexes) read as one checked block each. -/
+theorem c02_directory_open_is_source_open (f : Bytes) :
+    directoryOpen f =
+      Generated.directoryPackNew ((readBlock f 0 60).bind fun hd => PackHeader.decode hd)
+        ((readBlock f 64 60).bind fun db => DirectoryHeader.decode db)
+        (fun w pos count => readBlock f pos (w * count)) :=
+  gen_directoryOpen f
 
 end Jubako
